@@ -144,7 +144,8 @@ def LEFT(text, num_chars=1):
 def RIGHT(text, num_chars=1):
     if num_chars < 0 or not isinstance(text, string_types):
         return error.VALUE
-    return text[-num_chars:]
+    # text[-0:] would be the whole text
+    return text[len(text) - num_chars:] if num_chars < len(text) else text
 
 
 @dispatcher.register_for('MID', 'MIDB')
